@@ -301,6 +301,47 @@ func init() {
 	}
 	reg("strings.Index", idx(false))
 	reg("strings.LastIndex", idx(true))
+	// IndexAny / ContainsAny with a literal character set on structured strings: decided per character by splitting;
+	// with at most one of the characters present the position is that character's (several present characters fall
+	// back to the byte-level code, which needs a byte-precise string)
+	anyOf := func(in *Interp, s *Str, chars string) (present []string, ok bool) {
+		for i := 0; i < len(chars); i++ {
+			if chars[i] >= 0x80 {
+				return nil, false
+			}
+			if len(in.splitStr(s, chars[i:i+1])) > 1 {
+				present = append(present, chars[i:i+1])
+			}
+		}
+		return present, true
+	}
+	reg("strings.IndexAny", func(in *Interp, fn *ssa.Function, args []value) (value, bool) {
+		s, cs := args[0].(*Str), args[1].(*Str)
+		chars, conc := cs.Concrete()
+		if s.Kind == sBytes || !conc {
+			return nil, false
+		}
+		present, ok := anyOf(in, s, chars)
+		if !ok || len(present) > 1 {
+			return nil, false
+		}
+		if len(present) == 0 {
+			return BVi(64, -1), true
+		}
+		return idx(false)(in, fn, []value{s, lit(present[0])})
+	})
+	reg("strings.ContainsAny", func(in *Interp, fn *ssa.Function, args []value) (value, bool) {
+		s, cs := args[0].(*Str), args[1].(*Str)
+		chars, conc := cs.Concrete()
+		if s.Kind == sBytes || !conc {
+			return nil, false
+		}
+		present, ok := anyOf(in, s, chars)
+		if !ok {
+			return nil, false
+		}
+		return Bool(len(present) > 0), true
+	})
 	byteIdx := func(last bool) summaryFn {
 		return func(in *Interp, fn *ssa.Function, args []value) (value, bool) {
 			s := args[0].(*Str)
